@@ -18,7 +18,7 @@ STORE_NAMES = [("fast", n) for n in "abcpqrst"] + [("global", "GS0"), ("global",
                                                    ("deref", "CS0"), ("deref", "CS1")]
 ATTRS = ["x", "y", "val", "attr", "q_1"]
 CONSTS = ["0", "1", "7", "-1", "300", "'k'", '"it\'s"', "'a\"b'", "None", "True", "1.5", "b'x'",
-          "(1, 2)", "1+2j", "'w' 'z'", "'\\xe9'"]
+          "(1, 2)", "1+2j", "'w' 'z'", "'\\xe9'", "..."]
 
 PROLOGUE = [
     "global GS0, GS1",
@@ -30,7 +30,9 @@ PROLOGUE = [
 
 
 def const_repr(src):
-    return repr(ast.literal_eval(src))
+    """text the decompiler shows for a constant: its repr, "..." for Ellipsis"""
+    v = ast.literal_eval(src)
+    return "..." if v is Ellipsis else repr(v)
 
 
 # ------------------------------------------------------------------ random trees
@@ -369,7 +371,7 @@ def coq_insn(i):
     if op == "STORE_ATTR":
         return "IStoreAttr %s" % cstr(str(i.argval))
     if op == "LOAD_CONST":
-        return "ILoadConst %s" % cstr(i.argrepr)
+        return "ILoadConst %s" % cstr("..." if i.argval is Ellipsis else i.argrepr)
     if op == "BINARY_SUBSCR":
         return "IBinarySubscr"
     if op == "STORE_SUBSCR":
@@ -598,8 +600,8 @@ _CLS = [None]
 def tree_e(n, code):
     if isinstance(n, ast.Name):
         return ["name", kind_of(mangle(n.id, _CLS[0]), code), mangle(n.id, _CLS[0])]
-    if isinstance(n, ast.Constant) and not isinstance(n.value, (tuple, frozenset)) and n.value is not Ellipsis:
-        return ["const_r", repr(n.value)]
+    if isinstance(n, ast.Constant) and not isinstance(n.value, (tuple, frozenset)):
+        return ["const_r", "..." if n.value is Ellipsis else repr(n.value)]
     if isinstance(n, ast.Attribute):
         return ["attr", tree_e(n.value, code), mangle(n.attr, _CLS[0])]
     if isinstance(n, ast.Subscript):
@@ -911,11 +913,6 @@ def gen_sites(spec):
     _STASH[key] = res
     return res
 
-
-
-# suspected finding (reported to the coordinator; not in known_findings.json): a constant whose
-# repr does not read back as the same expression in that position
-SIG_CONST = "C08_const_repr_not_source"
 
 
 def runtime_check(spec, src=None, filename="<c08prog>", details=None):
